@@ -16,7 +16,7 @@ from vf.core import Group
 from vf.bounded import oracles as O
 
 LAMBDAS = [("pearson", 1.0), ("log-likelihood", 0.0), ("freeman-tukey", -0.5), ("mod-log-likelihood", -1.0), ("neyman", -2.0),
-           ("cressie-read", 2.0 / 3.0), (0.3, 0.3), (2, 2.0), (-0.7, -0.7)]
+           ("cressie-read", 2.0 / 3.0), (0.3, 0.3), (2, 2.0), (-0.7, -0.7), (0, 0.0), (0.0, 0.0), (1, 1.0), (-1, -1.0), (-0.5, -0.5)]
 WRAPPERS = [("chi_square", 1.0), ("g_sq", 0.0), ("log_likelihood", 0.0), ("modified_log_likelihood", -1.0)]
 
 
